@@ -21,6 +21,7 @@ LEAN_TARGETS = ["RxProofs.C34"]
 DRIVER = "drv_thr2"
 DRIVER_ROOT = "Thr2"
 THEOREMS = [
+    "C34.periodic_no_tick_after_dispose",
     "C34.shared_loop_safe",
     "C34.remove_by_due_time_disposes_wrong_item",
     "C34.never_before_due",
@@ -30,8 +31,10 @@ THEOREMS = [
     "Thr2Timer.reach_ok",
 ]
 RULE = ("cases = scheduler (Timeout/NewThread/ThreadPool/EventLoop) x 1..3 actions each scheduled now|relative|absolute with "
-        "delay -1..3 ticks (absolute due times also as aware datetimes in non-UTC zones) at time 0..1 and disposed never or at a time around its due time x schedule (start thread + <=3 "
+        "delay -1..3 ticks or a timedelta with a days part (absolute due times also as aware datetimes in non-UTC zones) at time 0..1 and disposed never or at a time around its due time x schedule (start thread + <=3 "
         "preemptions); plus ImmediateScheduler schedule/relative/absolute with negative, zero and positive delays; "
+        "event-loop kinds also with the scheduler clock stepped back while the loop sleeps; periodic schedules on NewThread/"
+        "ThreadPool with ticks within / beyond their period and a dispose mid-tick; "
         "non-trivial = a dispose races with a pending action (disposed while the scheduler thread exists and the action "
         "has not started) or a preemption switched threads; distinct by canonical JSON.")
 ASSUMPTIONS = [
@@ -70,6 +73,16 @@ def gen_item(rng, at=0):
     if disp is not None:
         disp = max(at, disp)
     it = {"how": how, "delay": delay, "at": at, "disp": disp}
+    if how in ("rel", "abs") and rng.random() < 0.25:
+        # a delay given as a timedelta with a days part (and mixes of days / seconds / microseconds, also negative)
+        td = rng.choice([[1, 0, 50000], [1, 2, 0], [2, 0, 0], [1, 86399, 999999], [-1, 2, 0], [-1, 86399, 0], [0, 1, 500000]])
+        it["td"] = td
+        tot = td[0] * 86400 + td[1] + td[2] / 1e6
+        it["delay"] = tot
+        due = at + max(0, tot)
+        it["disp"] = rng.choice([None, None, int(due) - 1, int(due) + 1, at])
+        if it["disp"] is not None:
+            it["disp"] = max(at, it["disp"])
     if how == "abs" and rng.random() < 0.6:
         it["tz"] = rng.choice([-11, -5, -1, 2, 9])  # due time as an aware datetime in a non-UTC zone
     return it
@@ -93,6 +106,37 @@ def cases(rng, tier):
         sc["first"] = 0
         sc["pre"] = [[s, rng.randrange(nt)] for s in steps]
         yield sc
+    # the scheduler clock is stepped back while the event loop sleeps: its timed wait runs out (monotonic clock) before
+    # the item is due on the scheduler clock
+    for _ in range(fw.tier_scale(tier, 60, 600)):
+        kind = rng.choice(["newthread", "threadpool", "eventloop"])
+        d = rng.choice([2, 3, 4])
+        sc = {"type": "single", "sched": kind, "skew": {"at": rng.randrange(0, d - 1) if d > 2 else 0, "by": rng.choice([1, 2, 3])},
+              "items": [{"how": rng.choice(["rel", "abs"]), "delay": d, "at": 0, "disp": rng.choice([None, None, d - 1, d + 1])}]}
+        k = fw.key(sc)
+        if k not in base:
+            r0 = T.run_case(dict(sc, first=0, pre=[]))
+            base[k] = (r0["steps"], r0["nthreads"])
+        S, nt = max(2, base[k][0]), base[k][1]
+        steps = sorted(rng.sample(range(S), min(rng.choice([0, 1, 2]), S)))
+        sc["first"] = 0
+        sc["pre"] = [[s, rng.randrange(nt)] for s in steps]
+        yield sc
+    # periodic scheduling on NewThread / ThreadPool: ticks that overrun their period (or period 0), dispose mid-tick
+    for _ in range(fw.tier_scale(tier, 60, 600)):
+        period = rng.choice([0, 1, 2, 2])
+        costs = [rng.choice([0, 1, period, period + 1, 2 * period + 1]) for _ in range(3)]
+        sc = {"type": "periodic", "sched": rng.choice(["newthread", "threadpool"]), "items": [],
+              "periodic": {"period": period, "costs": costs, "disp": rng.choice([0, 1, 2, 3, 4, 5])}}
+        k = fw.key(sc)
+        if k not in base:
+            r0 = T.run_case(dict(sc, first=0, pre=[]))
+            base[k] = (r0["steps"], r0["nthreads"])
+        S, nt = max(2, base[k][0]), base[k][1]
+        steps = sorted(rng.sample(range(S), min(rng.choice([0, 1, 2]), S)))
+        sc["first"] = 0
+        sc["pre"] = [[s, rng.randrange(nt)] for s in steps]
+        yield sc
     # several relative actions queued at time 0 on ONE EventLoopScheduler thread: replayed in the n-item model
     for _ in range(fw.tier_scale(tier, 120, 1200)):
         nitems = rng.choice([2, 2, 3, 4])
@@ -101,6 +145,10 @@ def cases(rng, tier):
             d = rng.choice([1, 1, 2, 2, 3])
             items.append({"how": "rel", "delay": d, "at": 0, "disp": rng.choice([None, None, d - 1, d - 1, d, d + 1, 0])})
         sc = {"type": "shared", "sched": "eventloop", "items": items}
+        if rng.random() < 0.25 and min(it["delay"] for it in items) >= 2:
+            sc["skew"] = {"at": 0, "by": rng.choice([1, 2])}
+            for it in sc["items"]:
+                it["disp"] = None if it["disp"] is None else max(1, it["disp"])
         k = fw.key(sc)
         if k not in base:
             r0 = T.run_case(dict(sc, first=0, pre=[]))
@@ -176,6 +224,9 @@ def impl(case):
     if case["type"] == "single" and r["outcome"] == "ok":
         cfg, evs = T.project(case, r)
         out["cfg"], out["events"] = cfg, evs
+    out["timer_args"], out["ticks"], out["p_returned"] = r["timer_args"], r["ticks"], r["p_returned"]
+    if case["type"] == "periodic" and r["outcome"] == "ok":
+        out["periodic_labels"] = T.project_periodic(case, r)[1]
     if case["type"] == "shared" and r["outcome"] == "ok":
         _req, labels = T.project_shared(case, r)
         out["shared_labels"] = labels
@@ -192,6 +243,9 @@ def model_request(case):
     if case["type"] == "shared":
         r = _run(case)
         return T.project_shared(case, r)[0] if r["outcome"] == "ok" else None
+    if case["type"] == "periodic":
+        r = _run(case)
+        return T.project_periodic(case, r)[0] if r["outcome"] == "ok" else None
     if case["type"] != "single":
         return None
     r = _run(case)
@@ -204,6 +258,10 @@ def model_request(case):
 def canon_impl(case, out):
     if case["type"] == "imm":
         return out["imm"]
+    if case["type"] == "periodic":
+        if "periodic_labels" not in out:
+            return {"outcome": out["outcome"]}
+        return {"labels": out["periodic_labels"], "bad": any(t["after_return"] for t in out["ticks"])}
     if case["type"] == "shared":
         if "shared_labels" not in out:
             return {"outcome": out["outcome"]}
@@ -218,6 +276,8 @@ def canon_model(case, resp):
         return resp
     if "error" in resp:
         return resp
+    if case["type"] == "periodic":
+        return {"labels": resp["labels"], "bad": resp["bad"]}
     if case["type"] == "shared":
         # the bottom step's label says whether the head was due; the real run shows it only through what follows
         return {"labels": ["bottom" if l.startswith("bottom-") else l for l in resp["labels"]], "started": resp["started"]}
@@ -231,6 +291,18 @@ def verdict(case, out):
         return ("bad", f"run ended with {out['outcome']}")
     if out["excs"]:
         return ("bad", f"exception in a thread: {out['excs']}")
+    if case.get("type") == "periodic":
+        for k, t in enumerate(out["ticks"]):
+            if t["after_return"]:
+                return ("bad", f"periodic tick {k} (clock {t['clock']}) was let through by a read of the disposed flag made "
+                               "after dispose() had returned, or without reading it")
+        return ("ok", None)
+    if case["sched"] == "timeout":
+        # the instrumented Timer: it must be armed with due - now
+        for i, arg in out["timer_args"]:
+            due, at = out["due"][i], out["sched_at"][i]
+            if abs(arg - (due - at)) > 1e-6:
+                return ("bad", f"action {i}: threading.Timer armed with {arg} s, due time is {due - at} s away")
     for i, it in enumerate(case["items"]):
         st = out["starts"][i]
         due, disp = out["due"][i], out["disposed_at"][i]
@@ -259,6 +331,8 @@ def oracle(case, out):
 def nontrivial(case, out):
     if case["type"] == "imm":
         return True
+    if case["type"] == "periodic":
+        return len(out["ticks"]) > 0
     racing = any(d is not None and d <= due for d, due in zip(out["disposed_at"], out["due"]))
     return out["outcome"] == "ok" and (out["preempted"] > 0 or racing)
 
@@ -268,6 +342,15 @@ def bucket(case, out):
         yield f"imm:{case['how']}:{out['imm']}"
         return
     yield f"sched:{case['sched']}"
+    if case["type"] == "periodic":
+        pc = case["periodic"]
+        yield "periodic:" + ("period0" if pc["period"] == 0 else "overrun" if any(c >= pc["period"] for c in pc["costs"]) else "in-time")
+        yield f"periodic:ticks:{min(len(out['ticks']), 4)}"
+        return
+    if case.get("skew"):
+        yield "clock-stepped-back"
+    if any(it.get("td") for it in case["items"]):
+        yield "delay-with-days"
     yield f"items:{len(case['items'])}"
     for it, st, d, due in zip(case["items"], out["starts"], out["disposed_at"], out["due"]):
         yield f"how:{it['how']}"
@@ -303,7 +386,14 @@ def extra(rng, tier):
             scs.append({"type": "single", "sched": kind, "items": [it]})
         scs.append({"type": "multi", "sched": kind, "items": [{"how": "rel", "delay": 2, "at": 0, "disp": 1},
                                                                {"how": "rel", "delay": 1, "at": 0, "disp": None}]})
-    single = [sc for sc in scs if sc["type"] == "single"]
+        scs.append({"type": "single", "sched": kind, "items": [{"how": "rel", "delay": 86402, "td": [1, 2, 0], "at": 0, "disp": None}]})
+        if kind != "timeout":
+            scs.append({"type": "single", "sched": kind, "skew": {"at": 1, "by": 2},
+                        "items": [{"how": "rel", "delay": 3, "at": 0, "disp": None}]})
+        if kind in ("newthread", "threadpool"):
+            scs.append({"type": "periodic", "sched": kind, "items": [], "periodic": {"period": 1, "costs": [2, 2, 2], "disp": 3}})
+            scs.append({"type": "periodic", "sched": kind, "items": [], "periodic": {"period": 0, "costs": [1, 1, 1], "disp": 1}})
+    single = [sc for sc in scs if sc["type"] in ("single", "periodic")]
     multi = [sc for sc in scs if sc["type"] == "multi"]
     b1, i1 = X.plan(single, T.run_case, lambda sc: 2, ["all"] if quick else ["all", "all"], batch_runs=400, firsts=[0],
                     stride=3 if quick else 2)
